@@ -50,7 +50,16 @@ Allowed(c, chart, t) ==
          /\ ~Dead(Push(chart, TokBytes(c, t)))
 
 Text(c) == {t \in 0..(Voc(c).n - 1) : ~IsSpecial(c, t) \/ t = Voc(c).eos}
-ExactMask(c, chart) == {t \in Text(c) : Allowed(c, chart, t)}
+(* same set as {t \in Text(c) : Allowed(c, chart, t)}; the first byte is tested against the set *)
+(* of bytes that can come next before any item set is built                                    *)
+ExactMask(c, chart) ==
+    LET nb == NextBytes(chart)
+        acc == IsAcc(chart)
+    IN  {t \in Text(c) :
+            IF t = Voc(c).eos THEN acc
+            ELSE LET w == TokBytes(c, t) IN
+                 /\ w # <<>> /\ w[1] \in nb
+                 /\ (Len(w) = 1 \/ ~Dead(Push(chart, w)))}
 CanExtend(chart) == NextBytes(chart) # {}
 
 RECURSIVE ValidLen(_, _, _, _)
